@@ -21,6 +21,7 @@ From Hy Require Import model.C13_Salamander proof.C13_Salamander.
 From Hy Require model.C14_Gecko proof.C14_Gecko.
 From Hy Require model.C17_Sniff proof.C17_Sniff proof.C17_Quic proof.C17_Misc.
 From Hy Require model.C20_Punch proof.C20_Punch.
+From Hy Require model.C03_Gecko proof.C03_Gecko proof.C03_Alloc gen.ParamsC20.
 From Coq Require Import ZArith Permutation.
 Local Open Scope N_scope.
 
@@ -114,6 +115,25 @@ Theorem C03_gecko_receiver_bounded : forall rbuf acts,
   (length (C14_Gecko.tbl st) <= 4096)%nat.
 Proof. exact proof.C14_Gecko.bounds_always. Qed.
 Print Assumptions C03_gecko_receiver_bounded.
+
+(* The Gecko receive path with EVERY Go operation that can panic written out (model/C03_Gecko.v: buf[0], buf[:n],
+   in[0..2], in[3:5], Uint16, in[5+padLen:], the three make()s, e.chunks[idx] read and store, out[off:] of the assembly
+   loop).  decodeFrame: the explicit transcription never panics and is the function C14 models. *)
+Theorem C03_gecko_decode_sites_unreachable : forall b,
+  C03_Gecko.decode_frame_p b = C14_Gecko.decode_frame b /\ is_panic (C03_Gecko.decode_frame_p b) = false.
+Proof. intros b. split; [apply proof.C03_Gecko.decode_frame_p_eq|apply proof.C03_Gecko.decode_frame_p_never_panics]. Qed.
+Print Assumptions C03_gecko_decode_sites_unreachable.
+
+(* ReadFrom / acceptChunk / gc on EVERY sequence of inner datagrams (any bytes, any lengths, any sources, any clock
+   values, any eviction choices) and ticks: no Panic site is reached; the run returns exactly what C14's model returns
+   (so C03_gecko_receiver_bounded and C14's reassembly theorems are about this code); and every make() it executed is
+   within its cap: at most geckoMaxFragmentChunks slots, geckoBufferSize - geckoHeaderSize bytes per chunk copy, and
+   their product for a reassembled packet. *)
+Theorem C03_gecko_receiver_never_panics : forall rbuf acts,
+  exists allocs, C03_Gecko.run_p rbuf C14_Gecko.r_init acts = Ok (C14_Gecko.run rbuf C14_Gecko.r_init acts, allocs) /\
+                 Forall C03_Gecko.alloc_ok allocs.
+Proof. exact proof.C03_Gecko.gecko_receiver_never_panics. Qed.
+Print Assumptions C03_gecko_receiver_never_panics.
 
 (* ================= first bytes of a sniffed flow (extras/sniff), from C17 ================= *)
 
@@ -238,3 +258,43 @@ Theorem C03_unprotect_old_refuted :
     is_panic (C17_Sniff.read_crypto_payload hp aead sortf true false [data] 0) = true.
 Proof. exact proof.C17_Misc.unprotect_legacy_check_refuted. Qed.
 Print Assumptions C03_unprotect_old_refuted.
+
+(* ================= every peer-sized make() is bounded ===================================== *)
+
+(* C03_alloc_bounded.  For every input, each allocation whose size a peer chooses stays under its cap (caps are the
+   regenerated constants of gen/Params*.v):
+   - TCP frames, any reader script: the readers allocate at most MaxAddressLength / MaxMessageLength bytes;
+   - Defragger: at most 255 slots; the buffer of a reassembled message has exactly the size of the fragments fed for it;
+   - QUIC Initial parsing: connection ids of at most 255 bytes, a token no longer than the datagram, CRYPTO frame data of
+     at most maxCryptoFrameDataLen bytes, an assembled CRYPTO stream of at most maxCryptoPayloadLen bytes (a single
+     frame is returned as it is);
+   - Gecko receiver, any sequence: 8 slots, 2043 bytes per chunk copy, 16344 per reassembled packet;
+   - hole-punch packets: longer than punchMaxWireLen is rejected before the copy, an accepted one is within the window;
+   - speed test: a response message of at most 65535 bytes. *)
+Theorem C03_alloc_bounded :
+  (forall st,
+     proof.C03_Alloc.alloc_of (snd (read_tcp_request st)) <= proof.C03_Alloc.alloc_of st + MaxAddressLength /\
+     proof.C03_Alloc.alloc_of (snd (server_read_request st)) <= proof.C03_Alloc.alloc_of st + MaxAddressLength /\
+     proof.C03_Alloc.alloc_of (snd (read_tcp_response st)) <= proof.C03_Alloc.alloc_of st + MaxMessageLength) /\
+  (forall d m d' o, fcount m < 256 -> feed d m = Ok (d', o) ->
+     (length (d_frags d') <= Nat.max (length (d_frags d)) 255)%nat /\
+     (d_size d' <= d_size d + length (data m))%nat /\
+     (1 < fcount m -> forall out, o = Some out -> length (data out) = d_size d')) /\
+  (forall r hd rest, C17_Sniff.parse_long_header r = Ok (hd, rest) ->
+     (length (C17_Sniff.h_dcid hd) <= 255)%nat /\ (length (C17_Sniff.h_scid hd) <= 255)%nat /\
+     (length (C17_Sniff.h_token hd) <= length r)%nat) /\
+  (forall r frs, C17_Sniff.extract_frames (length r) r [] = Ok frs ->
+     Forall (fun f => N.of_nat (length (snd f)) <= C17_Sniff.maxCryptoFrameDataLen) frs) /\
+  (forall sortf, (forall l, Permutation (sortf l) l) ->
+     forall frames d, Forall (fun f => (0 <= fst f)%Z) frames -> C17_Sniff.assemble sortf frames = Ok (Some d) ->
+     (exists f, frames = [f] /\ d = snd f) \/ (Z.of_nat (length d) <= C17_Sniff.maxCryptoPayloadLen)%Z) /\
+  (forall rbuf acts, exists allocs,
+     C03_Gecko.run_p rbuf C14_Gecko.r_init acts = Ok (C14_Gecko.run rbuf C14_Gecko.r_init acts, allocs) /\
+     Forall C03_Gecko.alloc_ok allocs) /\
+  (forall H packet m,
+     ((ParamsC20.punchMaxWireLen < length packet)%nat -> C20_Punch.decode_punch H packet m = Err ELimit) /\
+     (forall ty pad, C20_Punch.decode_punch H packet m = Ok (ty, pad) ->
+        (ParamsC20.punchMinWireLen <= length packet <= ParamsC20.punchMaxWireLen)%nat)) /\
+  (forall s ok m s', read_response s = (Ok (ok, m), s') -> N.of_nat (length m) <= 65535).
+Proof. exact proof.C03_Alloc.alloc_bounded. Qed.
+Print Assumptions C03_alloc_bounded.
